@@ -40,69 +40,123 @@ def run(ctx):
     # ---- degree = len(filtered incident list of the same node)
     with res.guard("degree = len(filtered incident list of the same node)"):
         v = ctx.view("degree.degree")
-        rets = [n for n in walk_no_nested(v.fi.node) if isinstance(n, ast.Return)]
+        rets = [n for n in walk_no_nested(v.fi.node) if isinstance(n, ast.Return) and n.value is not None]
         if not rets:
             raise AnalysisError("degree.degree: no return")
+
+        def incident_of_node(x):
+            return isinstance(x, ast.Call) and isinstance(x.func, ast.Attribute) and x.func.attr == "get_incident_edges" and x.args and isinstance(x.args[0], ast.Name) and x.args[0].id == "node"
+
         for r in rets:
-            e = r.value
-            ok = (
-                isinstance(e, ast.Call) and isinstance(e.func, ast.Name) and e.func.id == "len" and len(e.args) == 1
-                and isinstance(e.args[0], ast.Call) and isinstance(e.args[0].func, ast.Attribute) and e.args[0].func.attr == "get_incident_edges"
-                and e.args[0].args and isinstance(e.args[0].args[0], ast.Name) and e.args[0].args[0].id == "node"
-            )
-            if not ok and isinstance(e, ast.Call) and isinstance(e.func, ast.Name) and e.func.id == "len" and e.args and isinstance(e.args[0], ast.Call) and isinstance(e.args[0].func, ast.Name) and e.args[0].func.id in ("list", "set", "tuple"):
-                inner = e.args[0].args[0] if e.args[0].args else None
-                ok = isinstance(inner, ast.Call) and isinstance(inner.func, ast.Attribute) and inner.func.attr == "get_incident_edges" and inner.args and isinstance(inner.args[0], ast.Name) and inner.args[0].id == "node" and e.args[0].func.id != "set" or (e.args[0].func.id == "set" and False)
-            res.check(bool(ok), "D-LEN", v.fi.short, norm(r), "len(incident)", "degree is not the length of the node's (filtered) incident-hyperedge list", loc(v.fi, r))
+            e = v.inline(r.value)
+            ok = isinstance(e, ast.Call) and isinstance(e.func, ast.Name) and e.func.id == "len" and len(e.args) == 1 and incident_of_node(e.args[0])
+            if not ok and isinstance(e, ast.Call) and isinstance(e.func, ast.Name) and e.func.id == "len" and e.args and isinstance(e.args[0], ast.Call) and isinstance(e.args[0].func, ast.Name) and e.args[0].func.id in ("list", "tuple"):
+                ok = bool(e.args[0].args) and incident_of_node(e.args[0].args[0])
+            # anything else built from len() / the incidence queries is a different quantity; other shapes are not judged
+            related = any(isinstance(x, ast.Call) and ((isinstance(x.func, ast.Name) and x.func.id in ("len", "sum")) or (isinstance(x.func, ast.Attribute) and x.func.attr in ("get_incident_edges", "get_neighbors", "get_edges"))) for x in ast.walk(e))
+            res.add("D-LEN", v.fi.short, norm(r), "len(incident)", "ok" if ok else ("violation" if related else "unknown"), "" if ok else "degree is not the length of the node's (filtered) incident-hyperedge list", loc(v.fi, r))
     # ---- degree_sequence: {node: hg.degree(node, ...) for node in hg.get_nodes()}
     with res.guard("degree_sequence: {node: hg.degree(node, ...) for node in hg.get_nodes()}"):
         v = ctx.view("degree.degree_sequence")
-        comps = [n for n in walk_no_nested(v.fi.node) if isinstance(n, ast.DictComp)]
-        if not comps:
-            raise AnalysisError("degree.degree_sequence: dict comprehension idiom not found")
-        for c in comps:
-            g = c.generators[0]
-            it_ok = isinstance(g.iter, ast.Call) and isinstance(g.iter.func, ast.Attribute) and g.iter.func.attr == "get_nodes" and not g.ifs and len(c.generators) == 1
-            tgt = g.target.id if isinstance(g.target, ast.Name) else None
-            key_ok = isinstance(c.key, ast.Name) and c.key.id == tgt
-            val_ok = isinstance(c.value, ast.Call) and isinstance(c.value.func, ast.Attribute) and c.value.func.attr == "degree" and c.value.args and isinstance(c.value.args[0], ast.Name) and c.value.args[0].id == tgt
-            res.check(it_ok, "D-SEQ", v.fi.short, norm(c), "all-nodes", "the degree sequence does not range over every node of get_nodes() exactly once", loc(v.fi, c))
-            res.check(key_ok and val_ok, "D-SEQ", v.fi.short, norm(c), "same-node", "the degree stored for a node is not degree(<that node>)", loc(v.fi, c))
+
+        def is_get_nodes(it):
+            it = v.inline(it)
+            return isinstance(it, ast.Call) and isinstance(it.func, ast.Attribute) and it.func.attr == "get_nodes" and not it.args and not it.keywords
+
+        def degree_of(val, tgt):
+            val = v.inline(val)
+            return isinstance(val, ast.Call) and isinstance(val.func, ast.Attribute) and val.func.attr == "degree" and val.args and isinstance(val.args[0], ast.Name) and val.args[0].id == tgt
+
+        forms = []  # (node, iter, filtered?, target name, key expr, value expr)
+        for n in walk_no_nested(v.fi.node):
+            if isinstance(n, ast.DictComp):
+                g = n.generators[0]
+                forms.append((n, g.iter, bool(g.ifs) or len(n.generators) != 1, g.target.id if isinstance(g.target, ast.Name) else None, n.key, n.value))
+            if isinstance(n, ast.For) and isinstance(n.target, ast.Name):
+                for st in ast.walk(n):
+                    if isinstance(st, ast.Assign) and len(st.targets) == 1 and isinstance(st.targets[0], ast.Subscript) and isinstance(st.targets[0].value, ast.Name):
+                        forms.append((n, n.iter, st not in n.body, n.target.id, st.targets[0].slice, st.value))
+        if not forms:
+            raise AnalysisError("degree.degree_sequence: neither a dict comprehension nor a filling loop found")
+        for c, it, filtered, tgt, key, val in forms:
+            res.check(is_get_nodes(it) and not filtered, "D-SEQ", v.fi.short, norm(c)[:160], "all-nodes", "the degree sequence does not range over every node of get_nodes() exactly once", loc(v.fi, c))
+            key_ok = isinstance(key, ast.Name) and key.id == tgt
+            res.check(key_ok and degree_of(val, tgt), "D-SEQ", v.fi.short, norm(c)[:160], "same-node", "the degree stored for a node is not degree(<that node>)", loc(v.fi, c))
         v = ctx.view("degree.degree_distribution")
-        augs = [n for n in walk_no_nested(v.fi.node) if isinstance(n, ast.AugAssign)]
-        res.check(bool(augs) and all(isinstance(a.op, ast.Add) and isinstance(a.value, ast.Constant) and a.value.value == 1 for a in augs), "D-SEQ", v.fi.short, norm(augs[0]) if augs else "+= 1", "histogram", "the degree histogram does not count each node exactly once", loc(v.fi, augs[0] if augs else v.fi.node))
+        augs = [n for n in walk_no_nested(v.fi.node) if isinstance(n, ast.AugAssign) and isinstance(n.target, ast.Subscript)]
+        gets = [n for n in walk_no_nested(v.fi.node) if isinstance(n, ast.Assign) and isinstance(n.targets[0], ast.Subscript) and isinstance(n.value, ast.BinOp) and any(isinstance(x, ast.Call) and isinstance(x.func, ast.Attribute) and x.func.attr == "get" for x in ast.walk(n.value))]
+        if augs:
+            res.check(all(isinstance(a.op, ast.Add) and isinstance(a.value, ast.Constant) and a.value.value == 1 for a in augs), "D-SEQ", v.fi.short, norm(augs[0]), "histogram", "the degree histogram does not count each node exactly once", loc(v.fi, augs[0]))
+        elif gets:
+            res.check(all(isinstance(a.value.op, ast.Add) and isinstance(a.value.right, ast.Constant) and a.value.right.value == 1 for a in gets), "D-SEQ", v.fi.short, norm(gets[0]), "histogram", "the degree histogram does not count each node exactly once", loc(v.fi, gets[0]))
+        else:
+            res.unknown("D-SEQ", v.fi.short, "+= 1", "histogram", "counting idiom not recognised (Counter / other)", loc(v.fi, v.fi.node))
         loops = [n for n in walk_no_nested(v.fi.node) if isinstance(n, ast.For)]
-        res.check(any(isinstance(l.iter, ast.Call) and isinstance(l.iter.func, ast.Attribute) and l.iter.func.attr in ("items", "values") for l in loops), "D-SEQ", v.fi.short, "for node, deg in degree_seq.items()", "over-sequence", "the histogram is not built from the degree sequence", loc(v.fi, v.fi.node))
+        over = any(isinstance(l.iter, ast.Call) and isinstance(l.iter.func, ast.Attribute) and l.iter.func.attr in ("items", "values") for l in loops)
+        res.add("D-SEQ", v.fi.short, "for node, deg in degree_seq.items()", "over-sequence", "ok" if over else "unknown", "" if over else "the loop that builds the histogram was not recognised", loc(v.fi, v.fi.node))
     # ---- connected_components sweep
     with res.guard("connected_components sweep"):
         v = ctx.view("cc.connected_components")
         f = v.fi.short
-        loops = [n for n in walk_no_nested(v.fi.node) if isinstance(n, ast.For) and isinstance(n.iter, ast.Call) and isinstance(n.iter.func, ast.Attribute) and n.iter.func.attr == "get_nodes"]
-        res.check(len(loops) == 1, "CC-COVER", f, "for node in hg.get_nodes()", "sweep", "the component sweep does not range over every node", loc(v.fi, v.fi.node))
+        loops = [n for n in walk_no_nested(v.fi.node) if isinstance(n, ast.For) and isinstance(v.inline(n.iter), ast.Call) and isinstance(v.inline(n.iter).func, ast.Attribute) and v.inline(n.iter).func.attr == "get_nodes"]
+        if len(loops) == 1:
+            res.ok("CC-COVER", f, "for node in hg.get_nodes()", "sweep", loc(v.fi, loops[0]))
+        elif not loops and not any(isinstance(n, (ast.For, ast.While)) for n in walk_no_nested(v.fi.node)) and not any(v.ctx.callees(v.fi, n) for n in walk_no_nested(v.fi.node) if isinstance(n, ast.Call) and not (isinstance(n.func, ast.Attribute))):
+            res.violation("CC-COVER", f, "for node in hg.get_nodes()", "sweep", "the component sweep does not range over every node", loc(v.fi, v.fi.node))
+        else:
+            res.unknown("CC-COVER", f, "for node in hg.get_nodes()", "sweep", "the sweep over get_nodes() was not recognised", loc(v.fi, v.fi.node))
         for lp in loops:
             node = lp.target.id if isinstance(lp.target, ast.Name) else None
-            guards = [n for n in ast.walk(lp) if isinstance(n, ast.If) and isinstance(n.test, ast.Compare) and len(n.test.ops) == 1 and isinstance(n.test.ops[0], ast.NotIn) and isinstance(n.test.left, ast.Name) and n.test.left.id == node and isinstance(n.test.comparators[0], ast.Name)]
-            res.check(len(guards) == 1, "CC-COVER", f, f"if {node} not in visited", "guard", "a search is not started exactly for the nodes that are not yet visited", loc(v.fi, lp))
-            for g in guards:
+            searches = [c for c in ast.walk(lp) if isinstance(c, ast.Call) and isinstance(c.func, ast.Name) and c.func.id in ("_bfs", "_dfs")]
+            tests = [n for n in ast.walk(lp) if isinstance(n, ast.If) and isinstance(n.test, ast.Compare) and len(n.test.ops) == 1 and isinstance(n.test.ops[0], (ast.NotIn, ast.In)) and isinstance(n.test.left, ast.Name) and n.test.left.id == node and isinstance(n.test.comparators[0], ast.Name)]
+            if not searches:
+                res.unknown("CC-COVER", f, "_bfs(hg, node, ...)", "guard", "no search call recognised in the sweep", loc(v.fi, lp))
+                continue
+            guards = []
+            for t in tests:
+                lab = "T" if isinstance(t.test.ops[0], ast.NotIn) else "F"
+                if all(v.cfg.branch_dominated(v.cfg.by_ast[id(t.test)], lab, v.cfg_id(c)) for c in searches):
+                    guards.append(t)
+            wrong = [t for t in tests if t not in guards and all(v.cfg.branch_dominated(v.cfg.by_ast[id(t.test)], "F" if isinstance(t.test.ops[0], ast.NotIn) else "T", v.cfg_id(c)) for c in searches)]
+            other_ifs = [n for n in ast.walk(lp) if isinstance(n, ast.If) and n not in tests]
+            if guards:
+                res.ok("CC-COVER", f, f"if {node} not in visited", "guard", loc(v.fi, guards[0]))
+            elif wrong:
+                res.violation("CC-COVER", f, f"if {node} not in visited", "guard", "a search is started exactly for the nodes that ARE already visited", loc(v.fi, wrong[0]))
+            elif not other_ifs:
+                res.violation("CC-COVER", f, f"if {node} not in visited", "guard", "a search is not started exactly for the nodes that are not yet visited", loc(v.fi, lp))
+            else:
+                res.unknown("CC-COVER", f, f"if {node} not in visited", "guard", "the visited-test that guards the search was not recognised", loc(v.fi, lp))
+            for g in guards[:1]:
                 vis = g.test.comparators[0].id
-                searches = [c for c in ast.walk(g) if isinstance(c, ast.Call) and isinstance(c.func, ast.Name) and c.func.id in ("_bfs", "_dfs")]
                 s_ok = [c for c in searches if len(c.args) >= 2 and isinstance(c.args[1], ast.Name) and c.args[1].id == node]
-                res.check(bool(s_ok), "CC-COVER", f, norm(searches[0]) if searches else "_bfs(hg, node, ...)", "search-from-node", "the search is not started from the unvisited node", loc(v.fi, g))
+                s_bad = [c for c in searches if len(c.args) >= 2 and not (isinstance(c.args[1], ast.Name) and c.args[1].id == node)]
+                res.add("CC-COVER", f, norm(searches[0]), "search-from-node", "ok" if s_ok and not s_bad else ("violation" if s_bad else "unknown"), "" if s_ok and not s_bad else "the search is not started from the unvisited node", loc(v.fi, g))
                 comp_names = set()
-                for a in ast.walk(g):
-                    if isinstance(a, ast.Assign) and isinstance(a.value, ast.Call) and a.value in s_ok and isinstance(a.targets[0], ast.Name):
+                for a in ast.walk(lp):
+                    if isinstance(a, ast.Assign) and isinstance(a.value, ast.Call) and a.value in searches and isinstance(a.targets[0], ast.Name):
                         comp_names.add(a.targets[0].id)
-                marked = False
-                appended = False
-                for a in ast.walk(g):
-                    if isinstance(a, ast.AugAssign) and isinstance(a.target, ast.Name) and a.target.id == vis and isinstance(a.value, ast.Name) and a.value.id in comp_names:
-                        marked = True
-                    if isinstance(a, ast.Call) and isinstance(a.func, ast.Attribute) and isinstance(a.func.value, ast.Name) and a.func.value.id == vis and a.func.attr in ("extend", "update") and a.args and isinstance(a.args[0], ast.Name) and a.args[0].id in comp_names:
-                        marked = True
-                    if isinstance(a, ast.Call) and isinstance(a.func, ast.Attribute) and a.func.attr == "append" and a.args and isinstance(a.args[0], ast.Name) and a.args[0].id in comp_names:
-                        appended = True
-                res.check(marked, "CC-COVER", f, f"{vis} += component", "mark-visited", "the nodes of a found component are not marked visited (components would be reported repeatedly)", loc(v.fi, g))
-                res.check(appended, "CC-COVER", f, "components.append(component)", "collect", "a found component is not added to the result", loc(v.fi, g))
+                marked = appended = False
+                vis_mut = res_mut = False
+                for a in ast.walk(lp):
+                    if isinstance(a, ast.AugAssign) and isinstance(a.target, ast.Name) and a.target.id == vis:
+                        vis_mut = True
+                        if isinstance(a.op, (ast.Add, ast.BitOr)) and any(isinstance(x, ast.Name) and x.id in comp_names for x in ast.walk(a.value)):
+                            marked = True
+                    if isinstance(a, ast.Assign) and any(isinstance(t, ast.Name) and t.id == vis for t in a.targets):
+                        vis_mut = True
+                    if isinstance(a, ast.Call) and isinstance(a.func, ast.Attribute) and isinstance(a.func.value, ast.Name) and a.func.value.id == vis:
+                        vis_mut = True
+                        if a.func.attr in ("extend", "update") and a.args and any(isinstance(x, ast.Name) and x.id in comp_names for x in ast.walk(a.args[0])):
+                            marked = True
+                    if isinstance(a, ast.Call) and isinstance(a.func, ast.Attribute) and a.func.attr in ("append", "add", "extend", "insert") and isinstance(a.func.value, ast.Name) and a.func.value.id != vis:
+                        res_mut = True
+                        if a.func.attr == "append" and a.args and any(isinstance(x, ast.Name) and x.id in comp_names for x in ast.walk(a.args[0])):
+                            appended = True
+                    if isinstance(a, (ast.Yield,)):
+                        res_mut = True
+                res.add("CC-COVER", f, f"{vis} += component", "mark-visited", "ok" if marked else ("unknown" if vis_mut and not comp_names else "violation"), "" if marked else "the nodes of a found component are not marked visited (components would be reported repeatedly)", loc(v.fi, g))
+                res.add("CC-COVER", f, "components.append(component)", "collect", "ok" if appended else ("unknown" if res_mut and not comp_names else "violation"), "" if appended else "a found component is not added to the result", loc(v.fi, g))
     # ---- B-START: the start node itself always belongs to the visited set a search returns
     with res.guard("B-START: the start node itself always belongs to the visited set a search returns"):
         res.rules["B-START"] = "a search puts its start node (the node dequeued from a queue seeded with `start`) into the returned set, guarded by nothing but `not in visited`"
